@@ -15,6 +15,7 @@ type AnimSeq struct {
 	Loop    int
 	Alpha   string // content alpha class
 	Content string
+	Inset   bool // visible pixels in an inner rectangle, fully transparent margins
 }
 
 type AnimPic struct {
@@ -50,7 +51,7 @@ func (s *AnimSeq) Summary() map[string]any {
 		edits = append(edits, f.Edit)
 		durs = append(durs, f.DurMS)
 	}
-	return map[string]any{"canvas": [2]int{s.CW, s.CH}, "frames": len(s.Frames), "edits": edits, "durs": durs, "kmin": s.Kmin, "kmax": s.Kmax, "loop": s.Loop, "alpha": s.Alpha, "content": s.Content}
+	return map[string]any{"canvas": [2]int{s.CW, s.CH}, "frames": len(s.Frames), "edits": edits, "durs": durs, "kmin": s.Kmin, "kmax": s.Kmax, "loop": s.Loop, "alpha": s.Alpha, "content": s.Content, "inset": s.Inset}
 }
 
 // DrawAnimSeq draws a frame sequence. minDur: smallest frame duration generated (C18 needs >= 1).
@@ -62,10 +63,38 @@ func DrawAnimSeq(t *rapid.T, maxCanvas, maxFrames, minDur int, alphas []string) 
 	if long {
 		s.CW, s.CH = minI(s.CW, 8), minI(s.CH, 8)
 	}
+	// rare: a canvas of realistic size (64 px and more per side: size thresholds of the still
+	// encoders - near-lossless, histogram tiling, segment analysis, row-parallel paths - sit there)
+	big := !long && rapid.IntRange(0, 39).Draw(t, "bigCanvas") == 0
+	if big {
+		hi := minI(4*maxCanvas, 220)
+		if hi < 72 {
+			hi = 72
+		}
+		s.CW, s.CH = rapid.IntRange(64, hi).Draw(t, "bigCW"), rapid.IntRange(64, hi).Draw(t, "bigCH")
+	}
 	s.Alpha = rapid.SampledFrom(alphas).Draw(t, "animAlpha")
 	s.Content = rapid.SampledFrom([]string{"flat", "flat", "pal4", "pal16", "gradient", "photo", "noise", "tiled"}).Draw(t, "animContent")
 	seed := rapid.Uint64().Draw(t, "animSeed")
+	// inset: pictures whose visible pixels sit in an inner rectangle with fully transparent margins
+	// (sprites); the visible box differs from picture to picture. Opaque sequences stay opaque.
+	s.Inset = s.Alpha != "opaque" && s.Alpha != "semi-strip" && rapid.IntRange(0, 5).Draw(t, "inset") == 0
 	render := func(seed uint64) []byte {
+		if s.Inset {
+			b := RenderContent(s.CW, s.CH, s.Content, s.Alpha, seed)
+			rr := NewRng(seed ^ 0x1257)
+			x0, y0 := rr.Intn(s.CW), rr.Intn(s.CH)
+			x1, y1 := x0+1+rr.Intn(s.CW-x0), y0+1+rr.Intn(s.CH-y0)
+			for y := 0; y < s.CH; y++ {
+				for x := 0; x < s.CW; x++ {
+					if x < x0 || x >= x1 || y < y0 || y >= y1 {
+						o := (y*s.CW + x) * 4
+						b[o], b[o+1], b[o+2], b[o+3] = 0, 0, 0, 0
+					}
+				}
+			}
+			return b
+		}
 		if s.Alpha != "semi-strip" {
 			return RenderContent(s.CW, s.CH, s.Content, s.Alpha, seed)
 		}
@@ -84,11 +113,17 @@ func DrawAnimSeq(t *rapid.T, maxCanvas, maxFrames, minDur int, alphas []string) 
 	if long {
 		n = rapid.IntRange(15, 60).Draw(t, "nFramesLong")
 	}
+	if big && n > 4 {
+		n = 4
+	}
 	r := NewRng(seed ^ 0x51)
 	cur := append([]byte(nil), base...)
-	durCls := rapid.SampledFrom([]string{"small", "small", "small", "zero-mix", "huge"}).Draw(t, "durClass")
+	durCls := rapid.SampledFrom([]string{"small", "small", "small", "zero-mix", "huge", "min"}).Draw(t, "durClass")
 	for i := 0; i < n; i++ {
 		edit := "first"
+		if i == 0 && rapid.IntRange(0, 7).Draw(t, "firstSmaller") == 0 {
+			edit = "smaller-image" // the very first picture need not cover the canvas either
+		}
 		if i > 0 {
 			edit = rapid.SampledFrom([]string{"identical", "small-rect", "small-rect", "small-rect", "pixel", "large", "alpha-only", "border", "smaller-image", "new-picture", "repaint-existing", "repaint-flat"}).Draw(t, "edit")
 		}
@@ -211,6 +246,8 @@ func DrawAnimSeq(t *rapid.T, maxCanvas, maxFrames, minDur int, alphas []string) 
 			pic.DurMS = rapid.IntRange(minDur, 120).Draw(t, "dur")
 		case "zero-mix":
 			pic.DurMS = rapid.SampledFrom([]int{minDur, minDur, 1, 2, 40}).Draw(t, "durz")
+		case "min":
+			pic.DurMS = minDur // every frame with the smallest duration (0 for C08: a file that is not "animated" by its timing)
 		default:
 			pic.DurMS = rapid.SampledFrom([]int{1, 100, 0xFFFFFF, 0xFFFFFE, 0x800000, 0xFFFFFF - 100}).Draw(t, "durh")
 			if pic.DurMS < minDur {
